@@ -1729,6 +1729,17 @@ def M_slice_split_at(it, ctx, args, st):
             yield s2, Panic('mid > len in split_at', ctx.fr.fn.name)
 
 
+def M_str_split_at_checked(it, ctx, args, st):
+    """str::split_at_checked(mid): Some((head, tail)) iff mid <= len and mid is on a char boundary"""
+    s = sval(st, args[0])
+    mid = args[1]
+    for s2, ok in fork_bool(it, st, z3.And(z3.ULE(mid, s.len), is_char_boundary(s, mid))):
+        if ok:
+            yield s2, it.some(Agg('tuple', (s2.ref(bstr_slice(s, bv(0), mid)), s2.ref(bstr_slice(s, mid, s.len)))))
+        else:
+            yield s2, it.none
+
+
 def M_iter_zip(it, ctx, args, st):
     a = as_iter(it, st, itval(st, args[0]) if isinstance(args[0], Ptr) else args[0])
     b = args[1]
@@ -2418,7 +2429,7 @@ MODELS = [
     (P + r'vec::Vec::<.*>::(?:new|with_capacity)', M_vec_new), (P + r'vec::Vec::<.*>::extend_from_slice', M_vec_extend_from_slice), (P + r'vec::Vec::<.*>::len', M_vec_len), (P + r'vec::Vec::<.*>::is_empty', M_vec_is_empty),
     (P + r'vec::Vec::<.*>::push', M_vec_push),
     (r'<' + P + r'vec::Vec<.*> as ' + P + r'ops::Deref(Mut)?>::deref(_mut)?', M_vec_deref),
-    (P + r'cell::RefCell::<.*>::borrow(_mut)?', M_refcell_borrow), (P + r'cell::RefCell::<.*>::new', M_refcell_new), (P + r'cell::RefCell::<.*>::replace', M_refcell_replace), (P + r'mem::replace::<.*>', M_mem_replace), (P + r'mem::take::<.*>', M_mem_take), (P + r'slice::<impl \[u8\]>::split_at', M_slice_split_at), (ITER + r'zip::<.*>', M_iter_zip), (r'<\[u8\] as ' + P + r'ops::Index<' + P + r'ops::Range\w*(?:<usize>)?>>::index', M_bytes_index_range), (P + r'str::<impl str>::strip_prefix::<char>', M_strip_prefix_char),
+    (P + r'cell::RefCell::<.*>::borrow(_mut)?', M_refcell_borrow), (P + r'cell::RefCell::<.*>::new', M_refcell_new), (P + r'cell::RefCell::<.*>::replace', M_refcell_replace), (P + r'mem::replace::<.*>', M_mem_replace), (P + r'mem::take::<.*>', M_mem_take), (P + r'slice::<impl \[u8\]>::split_at', M_slice_split_at), (P + r'str::<impl str>::split_at_checked', M_str_split_at_checked), (ITER + r'zip::<.*>', M_iter_zip), (r'<\[u8\] as ' + P + r'ops::Index<' + P + r'ops::Range\w*(?:<usize>)?>>::index', M_bytes_index_range), (P + r'str::<impl str>::strip_prefix::<char>', M_strip_prefix_char),
     (r'<' + P + r'cell::Ref(Mut)?<.*> as ' + P + r'ops::Deref(Mut)?>::deref(_mut)?', M_guard_deref),
     (P + r'boxed::Box::<.*>::new_uninit', M_box_new_uninit), (P + r'boxed::box_assume_init_into_vec_unsafe::<.*>', M_box_assume_init_into_vec),
     (P + r'boxed::Box::<.*>::new', M_box_new), (P + r'sync::Arc::<.*>::new', M_arc_new),
